@@ -424,7 +424,188 @@ theorem sinc_compile (rs : List CatRange) : SInc (fsts (compile rs)) := by
   rw [fsts_setFirst, fsts_applyAll, fsts_initCats]
   exact sinc_collect rs
 
-/-! ### bisection (contract of `binary_search`) selects the interval that `denF` reads -/
+/-! ### bisection: the standard library's `binary_search_by` meets its contract -/
+
+/-- Contract of `slice::binary_search` on a strictly increasing slice (a linear scan):
+`(i, true)` = `Ok(i)` with `bs[i] = x`; `(i, false)` = `Err(i)` with `i` the insertion point. -/
+def searchIdx : List Nat → Nat → Nat × Bool
+  | [], _ => (0, false)
+  | b :: bs, x =>
+    if x < b then (0, false) else if x = b then (0, true)
+    else ((searchIdx bs x).1 + 1, (searchIdx bs x).2)
+
+/-- `searchIdx` is determined by the lower bound `k`: everything before `k` is smaller than `x`,
+everything from `k` on is at least `x` -/
+theorem searchIdx_eq : ∀ (l : List Nat) (x k : Nat), k ≤ l.length →
+    (∀ i (h : i < l.length), i < k → l[i] < x) → (∀ i (h : i < l.length), k ≤ i → x ≤ l[i]) →
+    searchIdx l x = (k, decide (l[k]? = some x)) := by
+  intro l
+  induction l with
+  | nil => intro x k hk _ _; simp at hk; subst hk; simp [searchIdx]
+  | cons b bs ih =>
+    intro x k hk hlt hge
+    simp only [searchIdx]
+    by_cases h1 : x < b
+    · have hk0 : k = 0 := by
+        cases k with
+        | zero => rfl
+        | succ k' => have := hlt 0 (by simp) (by omega); simp at this; omega
+      subst hk0
+      have : b ≠ x := by omega
+      simp [h1, this]
+    · simp only [h1, if_false]
+      by_cases h2 : x = b
+      · have hk0 : k = 0 := by
+          cases k with
+          | zero => rfl
+          | succ k' => have := hlt 0 (by simp) (by omega); simp at this; omega
+        subst hk0
+        simp [h2]
+      · simp only [h2, if_false]
+        cases k with
+        | zero => have := hge 0 (by simp) (Nat.le_refl _); simp at this; omega
+        | succ k' =>
+          have := ih x k' (by simpa using hk)
+            (fun i h hi => by have := hlt (i + 1) (by simpa using h) (by omega); simpa using this)
+            (fun i h hi => by have := hge (i + 1) (by simpa using h) (by omega); simpa using this)
+          rw [this]; simp
+
+theorem sinc_getElem : ∀ (l : List Nat), SInc l → ∀ (i j : Nat) (hj : j < l.length) (hij : i < j),
+    l[i]'(by omega) < l[j] := by
+  intro l
+  induction l with
+  | nil => intro _ i j hj; simp at hj
+  | cons a as ih =>
+    intro hs i j hj hij
+    cases j with
+    | zero => omega
+    | succ j' =>
+      have hj' : j' < as.length := by simpa using hj
+      cases i with
+      | zero =>
+        simp only [List.getElem_cons_zero, List.getElem_cons_succ]
+        exact hs.head_lt _ (List.getElem_mem hj')
+      | succ i' =>
+        simp only [List.getElem_cons_succ]
+        exact ih hs.tail i' j' hj' (by omega)
+
+/-- memory safety of the two `get_unchecked` calls, for ANY slice (sorted or not): the loop keeps
+`base + size ≤ len` and `size ≥ 1` -/
+theorem bsLoop_in_range (l : List Nat) (x : Nat) : ∀ (fuel size base : Nat), 1 ≤ size → base + size ≤ l.length →
+    ∃ b, bsLoop l x fuel size base = some b ∧ b < l.length := by
+  intro fuel
+  induction fuel with
+  | zero => intro size base h1 h2; exact ⟨base, rfl, by omega⟩
+  | succ fuel ih =>
+    intro size base h1 h2
+    simp only [bsLoop]
+    by_cases hsz : size > 1
+    · simp only [hsz, if_true]
+      have hhalf : 1 ≤ size / 2 ∧ size / 2 < size := by omega
+      have hmid : base + size / 2 < l.length := by omega
+      rw [List.getElem?_eq_getElem hmid]
+      simp only
+      by_cases hp : l[base + size / 2] > x
+      · simp only [hp, if_true]; exact ih _ _ (by omega) (by omega)
+      · simp only [hp, if_false]; exact ih _ _ (by omega) (by omega)
+    · simp only [hsz, if_false]; exact ⟨base, rfl, by omega⟩
+
+theorem bsearch_in_range (l : List Nat) (x : Nat) : bsearch l x ≠ none := by
+  unfold bsearch
+  by_cases h0 : l.length = 0
+  · simp [h0]
+  · simp only [h0, if_false]
+    obtain ⟨b, hb, hlt⟩ := bsLoop_in_range l x l.length l.length 0 (by omega) (by omega)
+    rw [hb]; simp only
+    rw [List.getElem?_eq_getElem hlt]; simp only
+    split <;> simp
+
+/-- loop invariant on a strictly increasing slice: `l[base] ≤ x` unless `base = 0`, and everything
+from `base + size` on is greater than `x` -/
+theorem bsLoop_spec (l : List Nat) (hs : SInc l) (x : Nat) : ∀ (fuel size base : Nat), size ≤ fuel → 1 ≤ size →
+    base + size ≤ l.length → (base = 0 ∨ ∃ h : base < l.length, l[base] ≤ x) →
+    (∀ i (h : i < l.length), base + size ≤ i → x < l[i]) →
+    ∃ b, bsLoop l x fuel size base = some b ∧ b < l.length ∧ (b = 0 ∨ ∃ h : b < l.length, l[b] ≤ x) ∧
+      (∀ i (h : i < l.length), b + 1 ≤ i → x < l[i]) := by
+  intro fuel
+  induction fuel with
+  | zero => intro size base h0 h1; omega
+  | succ fuel ih =>
+    intro size base hf h1 h2 hlo hhi
+    simp only [bsLoop]
+    by_cases hsz : size > 1
+    · simp only [hsz, if_true]
+      have hhalf : 1 ≤ size / 2 ∧ size / 2 < size ∧ size / 2 ≤ size - size / 2 := by omega
+      have hmid : base + size / 2 < l.length := by omega
+      rw [List.getElem?_eq_getElem hmid]
+      simp only
+      by_cases hp : l[base + size / 2] > x
+      · simp only [hp, if_true]
+        apply ih _ _ (by omega) (by omega) (by omega) hlo
+        intro i h hi
+        by_cases heq : i = base + size / 2
+        · subst heq; exact hp
+        · have := sinc_getElem l hs (base + size / 2) i h (by omega)
+          omega
+      · simp only [hp, if_false]
+        apply ih _ _ (by omega) (by omega) (by omega) (Or.inr ⟨hmid, by omega⟩)
+        intro i h hi
+        exact hhi i h (by omega)
+    · simp only [hsz, if_false]
+      have : size = 1 := by omega
+      subst this
+      exact ⟨base, rfl, by omega, hlo, hhi⟩
+
+/-- **The transcribed `binary_search_by` returns exactly what the contract says** on a strictly
+increasing slice: `Ok(i)` with `l[i] = x`, or `Err(insertion point)`. -/
+theorem bsearch_eq_searchIdx (l : List Nat) (hs : SInc l) (x : Nat) : bsearch l x = some (searchIdx l x) := by
+  unfold bsearch
+  by_cases h0 : l.length = 0
+  · have : l = [] := List.eq_nil_of_length_eq_zero h0
+    subst this; simp [searchIdx]
+  · simp only [h0, if_false]
+    obtain ⟨b, hb, hlt, hlo, hhi⟩ := bsLoop_spec l hs x l.length l.length 0 (Nat.le_refl _) (by omega) (by omega)
+      (Or.inl rfl) (fun i h hi => by omega)
+    rw [hb]; simp only
+    rw [List.getElem?_eq_getElem hlt]; simp only
+    have hbelow : ∀ i (h : i < l.length), i < b → l[i] < l[b] := fun i h hi => sinc_getElem l hs i b hlt hi
+    by_cases heq : l[b] = x
+    · simp only [heq, if_true]
+      rw [searchIdx_eq l x b (by omega) (fun i h hi => by have := hbelow i h hi; omega)
+        (fun i h hi => by
+          by_cases hib : i = b
+          · subst hib; omega
+          · have := hhi i h (by omega); omega)]
+      simp [List.getElem?_eq_getElem hlt, heq]
+    · simp only [heq, if_false]
+      by_cases hless : l[b] < x
+      · simp only [hless, if_true]
+        rw [searchIdx_eq l x (b + 1) (by omega)
+          (fun i h hi => by
+            by_cases hib : i = b
+            · subst hib; exact hless
+            · have := hbelow i h (by omega); omega)
+          (fun i h hi => by have := hhi i h hi; omega)]
+        have hflag : decide (l[b + 1]? = some x) = false := by
+          by_cases hb1 : b + 1 < l.length
+          · have := hhi (b + 1) hb1 (Nat.le_refl _)
+            simp [List.getElem?_eq_getElem hb1]; omega
+          · simp [List.getElem?_eq_none (by omega : l.length ≤ b + 1)]
+        rw [hflag]
+      · simp only [hless, if_false, Nat.add_zero]
+        have hb0 : b = 0 := by
+          rcases hlo with h | ⟨_, h⟩
+          · exact h
+          · omega
+        subst hb0
+        rw [searchIdx_eq l x 0 (by omega) (fun i h hi => by omega)
+          (fun i h hi => by
+            by_cases hi0 : i = 0
+            · subst hi0; omega
+            · have := hhi i h (by omega); omega)]
+        simp [List.getElem?_eq_getElem hlt, heq]
+
+/-! ### the interval selected by bisection is the one `denF` reads -/
 
 theorem lookup_go (tab : List (Nat × Nat)) (hs : SInc (fsts tab)) (x : Nat) :
     (if (searchIdx (fsts tab) x).2 then (categoriesVec tab)[(searchIdx (fsts tab) x).1 + 1]?
@@ -466,6 +647,7 @@ theorem lookup_eq_denF (tab : List (Nat × Nat)) (hs : SInc (fsts tab)) (x : Nat
   | nil => simp [denF]
   | cons p rest =>
     simp only [List.isEmpty_cons, Bool.false_eq_true, if_false]
+    rw [bsearch_eq_searchIdx _ hs]
     exact lookup_go (p :: rest) hs x
 
 /-! ### the spec is a union: bit `k` is set iff some covering line sets it -/
